@@ -213,6 +213,7 @@ type c19Server struct {
 	pre    time.Duration // delay before the clock is read
 	post   time.Duration // delay after the clock is read
 	peers  []string
+	leader string
 }
 
 func c19NewServer(offset, pre, post time.Duration) *c19Server {
@@ -222,7 +223,7 @@ func c19NewServer(offset, pre, post time.Duration) *c19Server {
 		now := time.Now().Add(p.offset)
 		time.Sleep(p.post)
 		w.Header().Set("Content-Type", "application/json")
-		json.NewEncoder(w).Encode(health.ServerStatus{State: "Follower", CurrentTime: now, Peers: p.peers})
+		json.NewEncoder(w).Encode(health.ServerStatus{State: "Follower", CurrentTime: now, Peers: p.peers, Leader: p.leader})
 	}))
 	return p
 }
@@ -302,8 +303,11 @@ func TestVerifC19Real(t *testing.T) {
 		var err error
 		if viaJoin {
 			// the join target answers and names the other peers
-			peers[0].peers = list
-			err = SynchronizedWithMasterAndNetwork(self, peers[0].addr(), "secret")
+			// (-join may name any node: the leader, or a follower that names the leader)
+			jt := peers[rng.Intn(len(peers))]
+			jt.peers = list
+			jt.leader = peers[rng.Intn(len(peers))].addr()
+			err = SynchronizedWithMasterAndNetwork(self, jt.addr(), "secret")
 		} else {
 			err = SynchronizedWithNetwork(self, list, "secret")
 		}
